@@ -79,6 +79,10 @@ def contexts(dialect, text, exp, kind):
         if kind in ("int", "real"):
             yield "quantity-in-set", "k = {%s <m>, zz}" % text, [("k", SET(Q(exp, "m"), "zz"))]
             yield "set-with-units", "k = {%s, zz} <m>" % text, [("k", Q(SET(exp, "zz"), "m"))]
+    if dialect in ("ODL", "PDS3") and kind in ("int", "real"):
+        # ODL sets hold scalar values, and a number with its units is one
+        yield "quantity-in-set", "k = {%s <m>, zz}" % text, [("k", SET(Q(exp, "m"), "zz"))]
+        yield "quantity-in-set-in-seq", "k = (1, {%s <K>})" % text, [("k", S(1, SET(Q(exp, "K"))))]
     # units
     if kind in ("int", "real"):
         yield "units", "k = %s <m>" % text, [("k", Q(exp, "m"))]
